@@ -741,6 +741,37 @@ func ruleR0210(c *Ctx) {
 							ok2, why = true, "a conjunction with the old value"
 						}
 					}
+					if !ok2 {
+						// a descriptor this function is just building (nf := Function[V]{...}; nf.IsPure = f.IsPure) is construction
+						if id, ok := ast.Unparen(sel.X).(*ast.Ident); ok {
+							obj := info.ObjectOf(id)
+							if das, di := definingAssign(info, fn, obj); das != nil && len(das.Rhs) == len(das.Lhs) && countAssignments(info, fn, obj) == 1 {
+								r := ast.Unparen(das.Rhs[di])
+								if u, isU := r.(*ast.UnaryExpr); isU && u.Op == token.AND {
+									r = ast.Unparen(u.X)
+								}
+								if _, isLit := r.(*ast.CompositeLit); isLit {
+									ok2, why = true, "part of the construction of a new descriptor"
+								}
+							} else if das == nil {
+								// var nf Function[V]
+								declared := false
+								ast.Inspect(funcBody(fn), func(y ast.Node) bool {
+									if vs, isVS := y.(*ast.ValueSpec); isVS && len(vs.Values) == 0 {
+										for _, nm := range vs.Names {
+											if info.Defs[nm] == obj {
+												declared = true
+											}
+										}
+									}
+									return true
+								})
+								if declared {
+									ok2, why = true, "part of the construction of a new descriptor"
+								}
+							}
+						}
+					}
 					if ok2 {
 						c.OK(key, as.Pos(), "the flag is set to %s", why)
 					} else {
